@@ -481,6 +481,11 @@ Fixpoint run_ops (t : expr) (ops : list op) : outcome expr :=
   | o :: r => obind (apply_op t o) (fun t' => run_ops t' r)
   end.
 
+Definition is_env (e : expr) : bool :=
+  match e with ENamed _ _ _ _ | EMath _ _ _ | EGroup _ _ _ | ERoot _ => true | _ => false end.
+Definition has_args (e : expr) : bool :=
+  match e with ECmd _ _ _ _ | ENamed _ _ _ _ => true | _ => false end.
+
 (* the operation is aimed at something that exists and that the operation is for *)
 Definition holder_ok (t : expr) (hp : path) (i : nat) : bool :=
   match get t hp with
@@ -506,17 +511,29 @@ Definition op_ok (t : expr) (o : op) : bool :=
   | OSetStringCmd np _ =>
     match get t np with Some (ECmd _ [a0] _ _) => is_node a0 | _ => false end
   | OSetStringEnv np _ =>
+    (* an environment (or the root) whose `contents` is exactly one text *)
     match get t np with
-    | Some (ENamed _ _ _ _) | Some (EMath _ _ _) | Some (EGroup _ _ _) | Some (ERoot _) => true
-    | _ => false
+    | Some h => is_env h && match cview h with [(_, x)] => negb (is_node x) | _ => false end
+    | None => false
     end
-  | OSetArgs np _ =>
-    match get t np with Some (ECmd _ _ _ _) | Some (ENamed _ _ _ _) => true | _ => false end
+  | OSetArgs np idxs =>
+    match get t np with
+    | Some h => has_args h && nodup_nat idxs
+                && match select (args_of h) idxs with Some _ => true | None => false end
+    | None => false
+    end
   end.
 Fixpoint ops_ok (t : expr) (ops : list op) : Prop :=
   match ops with
   | [] => True
   | o :: r => op_ok t o = true /\ forall t', apply_op t o = Done t' -> ops_ok t' r
+  end.
+
+(* decidable form of ops_ok *)
+Fixpoint ops_okb (t : expr) (ops : list op) : bool :=
+  match ops with
+  | [] => true
+  | o :: r => op_ok t o && match apply_op t o with Done t' => ops_okb t' r | Raise _ => false end
   end.
 
 (* ----------------------------------------------------- reference document model *)
